@@ -30,7 +30,7 @@
 (***************************************************************************)
 EXTENDS Integers, Sequences, FiniteSets, TLC, Json
 
-CONSTANTS Names, Vals, MaxDepth, PosVals,
+CONSTANTS Names, Vals, MaxDepth, PosVals, Thens,
           UnsetAsCoded,   \* BOOLEAN, see above
           MaxH            \* bound on the history length (generator configs)
 
